@@ -355,8 +355,8 @@ def lookupAll (tbl : Array Int) (idx : List Int) : Option (List Int) :=
   idx.mapM (fun i => if 0 ≤ i then tbl[i.toNat]? else none)
 
 /-- `mj_island` after the quick returns: `rows`/`flexes` describe what `treeNext` yields,
-    `dofTree = m->dof_treeid`, `dofnum = m->tree_dofnum`.  `none` also when `nisland = 0`
-    (the engine returns early without building maps). -/
+    `dofTree = m->dof_treeid`, `dofnum = m->tree_dofnum`.  `none` also for the quick returns of the engine,
+    which leave `nisland = 0` and build no maps: no constraint rows (`!nefc`), or no island found. -/
 def island (ntree : Nat) (dofnum : Array Int) (dofTree : List Nat) (rows : List (Option (List Int)))
     (flexes : List (List (Int × Bool))) : Option IslandOut :=
   if rows.isEmpty then none else            -- `!nefc`: quick return with nisland = 0, flex coupling not examined
